@@ -28,6 +28,7 @@ type runner struct {
 	ibb  hx.CaseFile
 	life hx.CaseFile
 	iw   hx.CaseFile
+	ex   hx.CaseFile
 }
 
 // maxSlow: after this many runs of one family ended in a watchdog timeout (a
@@ -82,7 +83,26 @@ func genCfg(r *hx.Rand, i int) reqCfg {
 	return c
 }
 
+// genPeer: the next element of the peer; sometimes with extension attributes
+// called id / type in a foreign name space that collide with a pending request.
 func genPeer(r *hx.Rand, reqs []*rstate) peerSt {
+	st := genPeerPlain(r, reqs)
+	if len(reqs) > 0 && r.Chance(1, 5) {
+		c := reqs[r.Intn(len(reqs))].cfg
+		if c.ID != st.ID {
+			st.ExtID = c.ID // a pending id, in front of the element's own id
+			if r.Chance(1, 2) {
+				st.Kind = c.Kind
+			}
+		}
+		if r.Chance(1, 3) {
+			st.ExtTyp = []string{"result", "error", "get"}[r.Intn(3)]
+		}
+	}
+	return st
+}
+
+func genPeerPlain(r *hx.Rand, reqs []*rstate) peerSt {
 	kinds := []string{"iq", "message", "presence", "foo"}
 	k := r.Intn(20)
 	if len(reqs) > 0 && k < 14 {
@@ -323,6 +343,15 @@ var coreCorpus = [][]action{
 		{Op: "go", I: 0}, {Op: "go", I: 0}, {Op: "go", I: 1}, {Op: "go", I: 1},
 		{Op: "peer", St: st("iq", "a", "result")}, {Op: "serve"}, {Op: "serve"}, {Op: "go", I: 1}, {Op: "snap"},
 		{Op: "cancel", I: 0}, {Op: "go", I: 0}, {Op: "snap"}, {Op: "close", I: 1}},
+	// extension attributes called id / type in a foreign name space, in front of the real ones:
+	// the element with id "other" must not reach the call waiting for "b"; b's own reply must
+	{{Op: "start", Cfg: cfg("SendIQ", "b", "iq", "", "get", false)}, {Op: "go", I: 0}, {Op: "go", I: 0},
+		{Op: "peer", St: &peerSt{Kind: "iq", ID: "other", Typ: "result", ExtID: "b"}}, {Op: "serve"}, {Op: "serve"}, {Op: "snap"},
+		{Op: "peer", St: &peerSt{Kind: "iq", ID: "b", Typ: "result", ExtID: "zz", ExtTyp: "get"}}, {Op: "serve"}, {Op: "serve"}, {Op: "go", I: 0}, {Op: "close", I: 0}},
+	// a request (type get) that carries ext:type="result" and ext:id of a pending call is not a reply
+	{{Op: "start", Cfg: cfg("UnmarshalIQ", "b", "iq", "jabber:client", "set", false)}, {Op: "go", I: 0}, {Op: "go", I: 0},
+		{Op: "peer", St: &peerSt{Kind: "iq", ID: "q1", Typ: "get", ExtID: "b", ExtTyp: "result"}}, {Op: "serve"},
+		{Op: "peer", St: &peerSt{Kind: "message", ID: "m1", Typ: "error", ExtID: "b"}}, {Op: "serve"}, {Op: "serve"}},
 	// presence and message tracking
 	{{Op: "start", Cfg: cfg("SendPresence", "p", "presence", "", "", false)}, {Op: "go", I: 0}, {Op: "go", I: 0},
 		{Op: "peer", St: st("presence", "p", "unavailable")}, {Op: "serve"},
@@ -340,6 +369,7 @@ func main() {
 	x.ibb = hx.CaseFile{Name: "ibb", Imports: importsExt, Ok: "ibbf_case_ok", Type: "ibbfcase"}
 	x.life = hx.CaseFile{Name: "life", Imports: importsLife, Ok: "rl_case_ok", Type: "rlcase"}
 	x.iw = hx.CaseFile{Name: "iw", Imports: importsLife, Ok: "iw_case_ok", Type: "iwcase"}
+	x.ex = hx.CaseFile{Name: "ex", Imports: importsLife, Ok: "ex_case_ok", Type: "excase"}
 	xmpp.VerifSetHook(hookDispatch)
 	currentPath = filepath.Join(o.Out, "current.json")
 	defer os.Remove(currentPath)
@@ -392,6 +422,10 @@ func main() {
 			var lc lifeCase
 			json.Unmarshal(rp.Case, &lc)
 			x.lifeRun(lc)
+		case "ibb-expect-table":
+			var cc exCase
+			json.Unmarshal(rp.Case, &cc)
+			x.exReplay(cc.Actions, "replay")
 		case "ibb-writer":
 			var cc iwCase
 			json.Unmarshal(rp.Case, &cc)
@@ -416,6 +450,9 @@ func main() {
 		}
 		for _, acts := range iwCorpus {
 			x.iwReplay(acts, "corpus")
+		}
+		for _, acts := range exCorpus {
+			x.exReplay(acts, "corpus")
 		}
 		x.ibbExpectStall()
 		x.ibbOpenWithoutAccept()
@@ -451,6 +488,7 @@ func main() {
 		}
 		for i := 0; i < walks/8; i++ {
 			x.iwWalk(r.Fork(), 3+r.Intn(12))
+			x.exWalk(r.Fork(), 2+r.Intn(8))
 		}
 		x.lifeAll(r.Fork(), o.Thorough() || o.Search)
 	}
@@ -464,6 +502,7 @@ func main() {
 	res.CaseFiles = append(res.CaseFiles, x.ibb.Write(o.Out, 400)...)
 	res.CaseFiles = append(res.CaseFiles, x.life.Write(o.Out, 400)...)
 	res.CaseFiles = append(res.CaseFiles, x.iw.Write(o.Out, 400)...)
-	res.Extra["model_cases"] = x.core.Len() + x.rx.Len() + x.muc.Len() + x.ibb.Len() + x.life.Len() + x.iw.Len()
+	res.CaseFiles = append(res.CaseFiles, x.ex.Write(o.Out, 400)...)
+	res.Extra["model_cases"] = x.core.Len() + x.rx.Len() + x.muc.Len() + x.ibb.Len() + x.life.Len() + x.iw.Len() + x.ex.Len()
 	res.Write(o.Out)
 }
